@@ -29,6 +29,13 @@ var MapLines = []string{
 	`%\000\003,10.2.0.0/16,c\000`,
 	`Mexample.com,c\000`,
 	`M*.example.com,c\000`,
+	// client-subnet (ECS) map: the same locations by the client's subnet
+	`%\000\001,0.0.0.0/0,ec`,
+	`%\000\001,::/0,ec`,
+	`%\000\002,10.1.0.0/16,ec`,
+	`%\000\003,10.2.0.0/16,ec`,
+	`8example.com,ec`,
+	`8*.example.com,ec`,
 }
 
 // ValidationName is the owner of the validation record.
